@@ -198,6 +198,7 @@ func (e *Engine) checkQueuePreemption(st *Step, a *world.Alloc, app *world.App, 
 	// ---- C08: guarantees and effect ----
 	// attempt precondition: a queue on the asker's path has guaranteed resources it is still under
 	hasGuarantee, atOrAbove := false, true
+	pathDetail := ""
 	for _, q := range pathOf(pre, leaf) {
 		if len(q.Guaranteed) == 0 {
 			continue
@@ -208,16 +209,18 @@ func (e *Engine) checkQueuePreemption(st *Step, a *world.Alloc, app *world.App, 
 			if need <= 0 {
 				continue
 			}
+			// usage net of what is already being preempted, as the core's own snapshot counts it
 			g, ok := q.Guaranteed[t]
-			if !ok || q.Allocated[t] < g {
+			if !ok || q.Allocated[t]-q.Preempting[t] < g {
 				atOrAbove = false
 			}
 		}
+		pathDetail += fmt.Sprintf(" %s guaranteed %s allocated %s preempting %s;", q.Path, q.Guaranteed, q.Allocated, q.Preempting)
 	}
 	if !hasGuarantee {
 		e.violate("C08", "preemption-without-guarantee", "", fmt.Sprintf("queue preemption for ask %s although no queue on the path of %s has guaranteed resources", a.Key, leaf))
 	} else if atOrAbove {
-		e.violate("C08", "asker-queue-not-under-guarantee", "", fmt.Sprintf("queue preemption for ask %s %s although every guaranteed queue on the path of %s has reached its guaranteed share in every type the ask needs", a.Key, a.Res, leaf))
+		e.violate("C08", "asker-queue-not-under-guarantee", "", fmt.Sprintf("queue preemption for ask %s %s although every guaranteed queue on the path of %s has reached its guaranteed share in every type the ask needs:%s", a.Key, a.Res, leaf, pathDetail))
 	}
 	// victim queues above guarantee
 	byLeaf := map[string][]*world.Alloc{}
@@ -282,6 +285,17 @@ func (e *Engine) checkQueuePreemption(st *Step, a *world.Alloc, app *world.App, 
 		ctx := ""
 		if free.HasNegative() {
 			ctx = "/node-overcommitted"
+		} else {
+			// the announced victims reach the ask in one of its types but not in all of them
+			tot := res.R{}
+			for _, v := range victims {
+				tot.AddTo(v.Res)
+			}
+			for t, amount := range a.Res {
+				if amount > 0 && tot[t] >= amount {
+					ctx = "/one-type-reached"
+				}
+			}
 		}
 		e.violate("C08", "preemption-without-effect", ctx, fmt.Sprintf("victims were announced for ask %s %s but the free space of the reserved node %s (%s) plus the victims on it (%s in total) does not cover the ask", a.Key, a.Res, node, free, freed))
 	}
@@ -340,37 +354,65 @@ func (e *Engine) checkQuotaPreemption(st *Step, victims []*world.Alloc, victimAp
 			}
 		}
 	}
-	// the amount: which queue triggered is not observable without reading message texts, so the bound is the largest
-	// excess of any managed queue on the victims' paths (sound upper bound); judged per leaf of the victims
+	// the amount: one trigger queue serves a leaf per pass (a triggered queue excludes its descendants, and its
+	// ancestors did not trigger). The release message names the leaf, not the trigger, so the trigger is not
+	// observable: the rule is existential. Some managed queue on the leaf's path must exceed its maximum (net of what
+	// is already preempting, before the step) by at least everything claimed below it, for the types it exceeds;
+	// other types of a victim are incidental (a victim cannot be split).
+	excess := func(q *world.Queue) res.R {
+		x := res.R{}
+		for t, m := range q.Max {
+			if ex := q.Allocated[t] - q.Preempting[t] - m; ex > 0 {
+				x[t] = ex
+			}
+		}
+		return x
+	}
 	perLeaf := map[string]res.R{}
 	for _, v := range victims {
-		if va := pre.Apps[victimApp[v.Key]]; va != nil {
-			if perLeaf[va.Queue] == nil {
-				perLeaf[va.Queue] = res.R{}
-			}
-			perLeaf[va.Queue].AddTo(v.Res)
+		va := pre.Apps[victimApp[v.Key]]
+		if va == nil {
+			continue
 		}
+		if perLeaf[va.Queue] == nil {
+			perLeaf[va.Queue] = res.R{}
+		}
+		perLeaf[va.Queue].AddTo(v.Res)
 	}
 	for leaf, c := range perLeaf {
-		bound := res.R{}
+		ok, any := false, false
+		detail := ""
 		for _, q := range pathOf(pre, leaf) {
 			if !q.Managed {
 				continue
 			}
-			for t, m := range q.Max {
-				if ex := q.Allocated[t] - q.Preempting[t] - m; ex > bound[t] {
-					bound[t] = ex
+			x := excess(q)
+			if len(x) == 0 {
+				continue
+			}
+			any = true
+			below := res.R{}
+			for l, lc := range perLeaf {
+				if strings.HasPrefix(l+".", q.Path+".") {
+					below.AddTo(lc)
 				}
 			}
-		}
-		for t, ex := range bound {
-			if ex > 0 && c[t] > ex {
-				e.violate("C08", "quota-preemption-claims-too-much", "", fmt.Sprintf("quota preemption in %s claims %d %s, no managed queue on its path exceeds its maximum by more than %d", leaf, c[t], t, ex))
+			w := true
+			for t, ex := range x {
+				if below[t] > ex {
+					w = false
+				}
 			}
+			if w {
+				ok = true
+			}
+			detail += fmt.Sprintf(" %s exceeds by %s (claimed below it %s);", q.Path, x, below)
 		}
 		e.obs("c08.quota_claims_checked", 1)
+		if any && !ok {
+			e.violate("C08", "quota-preemption-claims-too-much", "", fmt.Sprintf("quota preemption in %s claims %s, more than the excess over maximum of every managed queue on its path:%s", leaf, c, detail))
+		}
 	}
-	_ = covering
 }
 
 // checkPreemptingBooks: preempting(q) equals the resources of the live allocations below q flagged preempted.
